@@ -156,7 +156,11 @@ func check(raw json.RawMessage) fw.Result {
 		return res
 	}
 	if err != nil {
+		// refused input, or a page loop that does not progress (C01's verdict; known finding there)
 		res.Verdict = fw.Skip
+		if _, ok := err.(*wr.StallError); ok {
+			res.Count("skipped_page_loop_stalls", 1)
+		}
 		return res
 	}
 	zoom := float64(d.Zoom)
